@@ -94,6 +94,13 @@ def first_order_match(pat, t, inst=None):
     # List of replacements for bound variables
     bd_vars = []
 
+    # Names that a variable standing for a bound variable must avoid: free
+    # variables of the pattern, of the term and of the given instantiation
+    # (a schematic variable may already be assigned one of them).
+    avoid_names = [v.name for v in pat.get_vars() + t.get_vars()]
+    for s in inst.values():
+        avoid_names.extend(v.name for v in s.get_vars())
+
     def match(pat, t):
         trace.append((pat, t))
         if pat.is_svar():
@@ -101,6 +108,11 @@ def first_order_match(pat, t, inst=None):
                 # If we are in an abstraction, check t does not contain any
                 # bound variables
                 if bd_vars and t.has_vars(bd_vars):
+                    raise MatchException(trace)
+                # The type of the schematic variable must match the type of t
+                try:
+                    pat.T.match_incr(t.get_type(), inst.tyinst)
+                except (TypeMatchException, term.TypeCheckException):
                     raise MatchException(trace)
                 inst[pat.head.name] = t
             else:
@@ -224,7 +236,7 @@ def first_order_match(pat, t, inst=None):
                 T = pat.var_T.subst(inst.tyinst)
                 inst.abs_name_inst[pat.var_name] = t.var_name
 
-                var_names = [v.name for v in pat.body.get_vars() + t.body.get_vars()]
+                var_names = [v.name for v in pat.body.get_vars() + t.body.get_vars()] + avoid_names
                 nm = name.get_variant_name(pat.var_name, var_names)
                 v = Var(nm, T)
                 pat_body = pat.subst_type(inst.tyinst).subst_bound(v)
